@@ -541,6 +541,10 @@ func (c *GRPCClient) StreamN(ctx context.Context, n int) error {
 // NetRPC is a net/rpc-only plugin.
 type NetRPC struct {
 	Sh *Shared
+	// Name is the plugin name this entry is registered under (part of the
+	// identity tag, so that a dispense reaching another dispense's server
+	// object is visible).
+	Name string
 }
 
 func (p *NetRPC) Server(b *plugin.MuxBroker) (interface{}, error) {
@@ -549,7 +553,7 @@ func (p *NetRPC) Server(b *plugin.MuxBroker) (interface{}, error) {
 	n := p.Sh.Objects
 	p.Sh.Brokers = append(p.Sh.Brokers, b)
 	p.Sh.mu.Unlock()
-	return &rpcServer{im: &impl{sh: p.Sh, objTag: fmt.Sprintf("obj%d", n), mux: b}}, nil
+	return &rpcServer{im: &impl{sh: p.Sh, objTag: fmt.Sprintf("%sobj%d", p.Name, n), mux: b}}, nil
 }
 
 func (p *NetRPC) Client(b *plugin.MuxBroker, c *rpc.Client) (interface{}, error) {
